@@ -134,7 +134,7 @@ impl BoxedUint {
             res[nlimbs - i - 1] = Limb(Word::from_be_bytes(buf));
             i += 1;
         }
-        CtOption::new(Self { limbs: res.into() }, Choice::from((err == 0) as u8))
+        CtOption::new(res.into(), Choice::from((err == 0) as u8))
     }
 
     /// Create a new [`BoxedUint`] from a big-endian string in a given base.
@@ -148,9 +148,7 @@ impl BoxedUint {
     pub fn from_str_radix_vartime(src: &str, radix: u32) -> Result<Self, DecodeError> {
         let mut dec = VecDecodeByLimb::default();
         encoding::radix_decode_str(src, radix, &mut dec)?;
-        Ok(Self {
-            limbs: dec.limbs.into(),
-        })
+        Ok(dec.limbs.into())
     }
 
     /// Create a new [`BoxedUint`] from a big-endian string in a given base,
